@@ -181,7 +181,8 @@ def parse_sanitizer(stderr_text):
 class Exec:
     """one execution = one fresh process of a harness"""
 
-    def __init__(self, prop, harness, flavor, seed, index, tier, cfg, timeout, shape=None):
+    def __init__(self, prop, harness, flavor, seed, index, tier, cfg, timeout, shape=None, run=0):
+        self.run = run           # index of the `runs` entry (two entries may use the same harness and flavor)
         self.prop, self.harness, self.flavor = prop, harness, flavor
         self.seed, self.index, self.tier, self.cfg = seed, index, tier, dict(cfg or {})
         self.timeout, self.shape = timeout, shape
@@ -192,7 +193,7 @@ class Exec:
         self.wall = 0.0
 
     def ident(self):
-        return '%s-%s-s%d-e%d' % (self.harness, self.flavor, self.seed, self.index)
+        return '%s-%s%s-s%d-e%d' % (self.harness, self.flavor, ('-r%d' % self.run) if self.run else '', self.seed, self.index)
 
     def describe(self):
         return dict(property=self.prop, harness=self.harness, flavor=self.flavor, seed=self.seed,
@@ -321,8 +322,11 @@ def match_known(known, prop, key):
 
 def plan_execs(prop, spec, tier, seed):
     execs = []
+    seen = {}
     for r in spec['runs']:
         n = r['execs'][tier]
+        runidx = seen.get((r['harness'], r['flavor']), 0)
+        seen[(r['harness'], r['flavor'])] = runidx + 1
         if n <= 0:
             continue
         shapes = r.get('shapes', [None])
@@ -331,7 +335,7 @@ def plan_execs(prop, spec, tier, seed):
             cfg.update(r.get('cfg_' + tier, {}))
             execs.append(Exec(prop, r['harness'], r['flavor'], seed, i, tier, cfg,
                               r.get('timeout', {}).get(tier, 300) if isinstance(r.get('timeout'), dict)
-                              else r.get('timeout', 300), shapes[i % len(shapes)]))
+                              else r.get('timeout', 300), shapes[i % len(shapes)], run=runidx))
     return execs
 
 
